@@ -66,6 +66,25 @@ def run():
                   {"a": "closeUp", "g": "C", "obj": "U1", "ctxMs": 3000}, {"a": "ackUntilIdle", "obj": "U1", "src": "C", "ms": 3000},
                   {"a": "join", "obj": "C"}, {"a": "quiesce"}, {"a": "closeConn", "g": "X", "ctxMs": 2000, "wait": True}, {"a": "quiesce", "ms": 50}]
         scs.append({"id": "C02/ackedLaterOnly/%d" % n, "kind": "iscp", "conn": dict(conn, storage="logged"), "steps": steps})
+    # late snapshot: the goroutine that retransmits lists the sent storage only after writes accepted on the resumed stream have been
+    # cut, stored and sent (Upstream.tla action TakeSnapshot; scheduling point upstream.resend.list): those chunks are sent twice,
+    # and the retransmission - one chunk at a time, each waiting for its result - must still reach every chunk of the first connection
+    for k, j in ((1, 1), (3, 1), (2, 2)) if quick else ((1, 1), (3, 1), (2, 2), (4, 3), (1, 3)):
+        for pol in ("immediate", "none"):
+            steps = [{"a": "holdPoint", "mode": "upstream.resend.list", "n": 1, "gate": "snap"}, {"a": "connect", "must": True},
+                     {"a": "openUp", "obj": "U1", "qos": "reliable", "must": True, "closeTimeoutMs": 3000, "policy": {"k": pol}}]
+            fl = [{"a": "flush", "g": "W", "obj": "U1", "ctxMs": 2000}] if pol == "none" else []
+            for t in range(1, k + 1):
+                steps += [{"a": "write", "g": "W", "obj": "U1", "id": "AB"[t % 2], "pts": [[t, 8]], "wait": True}] + fl
+            steps += [{"a": "join", "obj": "W"}, {"a": "await", "ev": "BRecvChunk", "match": {"seq": k}, "ms": 1000}, {"a": "cut"},
+                      {"a": "await", "ev": "UpResumed", "ms": 4000, "must": True}, {"a": "await", "ev": "PointHeld", "ms": 2000, "must": True}]
+            for t in range(k + 1, k + j + 1):
+                steps += [{"a": "write", "g": "W", "obj": "U1", "id": "AB"[t % 2], "pts": [[t, 8]], "wait": True}] + fl
+            steps += [{"a": "join", "obj": "W"}, {"a": "await", "ev": "BRecvChunk", "match": {"seq": k + j}, "ms": 1000},
+                      {"a": "release", "gate": "snap"}, {"a": "sleep", "ms": 50},
+                      {"a": "closeUp", "g": "C", "obj": "U1", "ctxMs": 3000}, {"a": "ackUntilIdle", "obj": "U1", "src": "C", "ms": 3000},
+                      {"a": "join", "obj": "C"}, {"a": "quiesce"}, {"a": "closeConn", "g": "X", "ctxMs": 2000, "wait": True}, {"a": "quiesce", "ms": 50}]
+            scs.append({"id": "C02/lateSnapshot/%s/k%d-j%d" % (pol, k, j), "kind": "iscp", "conn": dict(conn, storage="logged"), "steps": steps})
     trace = ctx.run_scenarios(scs, "c02", par=8)
     verdicts, _ = ctx.validate(trace, "MonC02")
     ctx.judge(scs, trace, verdicts)
